@@ -29,9 +29,9 @@ ATOK = "atok-c01"
 FAN_TARGETS = ["http://127.0.0.1:1/a", "http://127.0.0.1:1/b", "http://127.0.0.1:1/c"]
 
 
-def hookaidofile(base):
+def hookaidofile(base, extra=""):
     t = "\n".join('  deliver "%s" {\n    retry exponential max 3 base 1h cap 1h jitter 0\n    timeout 1s\n  }' % u for u in FAN_TARGETS)
-    return ('ingress {\n  listen "127.0.0.1:%d"\n}\npull_api {\n  listen "127.0.0.1:%d"\n  auth token "raw:%s"\n}\n'
+    return extra + ('ingress {\n  listen "127.0.0.1:%d"\n}\npull_api {\n  listen "127.0.0.1:%d"\n  auth token "raw:%s"\n}\n'
             'admin_api {\n  listen "127.0.0.1:%d"\n  auth token "raw:%s"\n}\n'
             'defaults {\n  egress {\n    https_only off\n    dns_rebind_protection off\n  }\n}\n'
             '/hooks/pull {\n  pull { path /pull/p }\n}\n/hooks/fan {\n%s\n}\n') % (base, base + 1, PTOK, base + 2, ATOK, t)
@@ -277,6 +277,82 @@ def _tail(path):
         return open(path, errors="replace").read()[-400:]
     except OSError:
         return ""
+
+
+# ---------------------------------------------------------------------------
+# concurrent admission: fan-out requests against a nearly full queue while an operator frees slots
+
+def concurrent_fanout(hk, root, base, seconds=1.2):
+    """Two clients post to the 3-target fan-out route of a queue limited to max_depth 5 (reject) while a third keeps
+    cancelling queued messages, so that individual per-target enqueues of one request fail and later ones succeed.
+    Every request answered 202 must have stored one message per target; a refused one (503) a prefix of the targets."""
+    import threading
+    d = os.path.join(root, "conc")
+    shutil.rmtree(d, ignore_errors=True)
+    os.makedirs(d)
+    open(os.path.join(d, "Hookaidofile"), "w").write(hookaidofile(base, "queue_limits {\n  max_depth 5\n  drop_policy reject\n}\n"))
+    p = Proc(hk, d, base)
+    res = {"requests": 0, "accepted": 0, "refused": 0, "problems": []}
+    if not p.wait_ready():
+        p.stop()
+        res["problems"].append(("restart", "binary does not start with queue_limits configured"))
+        return res
+    stop = time.time() + seconds
+    answers = {}
+    lock = threading.Lock()
+
+    def poster(k):
+        i = 0
+        while time.time() < stop:
+            i += 1
+            mk = "c%d_%d" % (k, i)
+            try:
+                s_, _ = http_req(base, "POST", "/hooks/fan", body_for(mk), {"X-Marker": mk})
+            except (OSError, http.client.HTTPException):
+                s_ = None
+            with lock:
+                answers[mk] = s_
+
+    def canceller():
+        while time.time() < stop:
+            try:
+                http_req(base + 2, "POST", "/messages/cancel_by_filter", json.dumps({"route": "/hooks/fan", "limit": 2}),
+                         {"Authorization": "Bearer " + ATOK, "Content-Type": "application/json", "X-Hookaido-Audit-Reason": "verif"})
+            except (OSError, http.client.HTTPException):
+                pass
+    ts = [threading.Thread(target=poster, args=(k,)) for k in range(2)] + [threading.Thread(target=canceller)]
+    for t in ts:
+        t.start()
+    for t in ts:
+        t.join()
+    p.stop()
+    stored = {}
+    try:
+        con = sqlite3.connect(os.path.join(d, "q.db"))
+        for route, target, payload in con.execute("SELECT route, target, payload FROM queue_items"):
+            pl = bytes(payload or b"")
+            if b"|" in pl:
+                stored.setdefault(pl.split(b"|", 1)[0].decode(errors="replace"), []).append(target)
+        con.close()
+    except sqlite3.Error as e:
+        res["problems"].append(("restart", "database cannot be read after the concurrent run: %r" % (e,)))
+    for mk, st in answers.items():
+        res["requests"] += 1
+        have = stored.get(mk, [])
+        if len(have) != len(set(have)):
+            res["problems"].append(("duplicate", "concurrent fan-out %s: a target holds two copies: %r" % (mk, have)))
+        if st == 202:
+            res["accepted"] += 1
+            if set(have) != set(FAN_TARGETS):
+                res["problems"].append(("acked-lost:ingress-fanout-partial-failure",
+                                        "ingress answered 202 for %s while an enqueue for one of its targets had been refused: stored targets %r, want all of %r"
+                                        % (mk, sorted(have), FAN_TARGETS)))
+        elif st == 503:
+            res["refused"] += 1
+            if sorted(have) != FAN_TARGETS[:len(have)]:
+                res["problems"].append(("refused-not-prefix", "refused fan-out %s stored %r, which is not a prefix of the targets in order" % (mk, sorted(have))))
+    shutil.rmtree(d, ignore_errors=True)
+    return res
 
 
 # ---------------------------------------------------------------------------
@@ -584,7 +660,13 @@ def main(ctx, replay):
         if len(samples) < 3 and out.get("killed") and not probs:
             samples.append({"workload": w, "crash_at": n, "kill_label": out.get("kill_label", ""),
                             "responses": [r["status"] for r in out["steps"]], "recovered": [(m["route"], m["state"]) for m in out.get("listing", [])]})
+    conc = concurrent_fanout(hk, root, port0 + 960, seconds=1.2 if ctx.tier == "quick" else 8.0)
+    for key, msg in conc["problems"][:20]:
+        C.report(ctx, key, msg, {"kind": "schedule", "scenario": "two clients posting to the 3-target fan-out route, max_depth 5 reject, one client cancelling queued messages",
+                                 "how_to_replay": "./check C01 --replay <this file> (the interleaving is chosen by the scheduler; the run is repeated)"})
+    evaluations += conc["requests"]
     cov = C.proof_coverage(info, "C01")
+    cov["concurrent_fanout"] = {k: conc[k] for k in ("requests", "accepted", "refused")}
     cov.update({
         "evaluations": evaluations,
         "distinct_nontrivial": len(nontrivial),
